@@ -101,7 +101,7 @@ func (b *Builder) expr1(e ast.Expr) *Term {
 	case *ast.FuncLit:
 		return b.funcLit(x)
 	case *ast.TypeAssertExpr:
-		return &Term{Op: "assert", Name: b.P.typeStr(b.info.TypeOf(x.Type)), Args: []*Term{b.expr(x.X)}}
+		return b.assertTerm(x)
 	case *ast.KeyValueExpr:
 		return b.expr(x.Value)
 	}
@@ -379,6 +379,14 @@ func (b *Builder) funcLit(x *ast.FuncLit) *Term {
 	return t
 }
 
+func (b *Builder) assertTerm(x *ast.TypeAssertExpr) *Term {
+	t := &Term{Op: "assert", Name: b.P.typeStr(b.info.TypeOf(x.Type)), Args: []*Term{b.expr(x.X)}}
+	if types.IsInterface(b.info.TypeOf(x.Type)) {
+		t.Fields = []string{"iface"}
+	}
+	return t
+}
+
 // multi evaluates an expression yielding n values.
 func (b *Builder) multi(e ast.Expr, n int) []*Term {
 	e = ast.Unparen(e)
@@ -393,7 +401,7 @@ func (b *Builder) multi(e ast.Expr, n int) []*Term {
 		t := mk("index", "", b.expr(x.X), b.expr(x.Index))
 		return []*Term{t, mk("ok", "", t)}
 	case *ast.TypeAssertExpr:
-		t := &Term{Op: "assert", Name: b.P.typeStr(b.info.TypeOf(x.Type)), Args: []*Term{b.expr(x.X)}}
+		t := b.assertTerm(x)
 		return []*Term{t, mk("ok", "", t)}
 	case *ast.UnaryExpr:
 		if x.Op == token.ARROW {
